@@ -255,6 +255,29 @@ Definition to_reverse_proxy (scrub : bool) (cfg : config) (m : mode) (client : l
 Definition upstream (scrub : bool) (cfg : config) (m : mode) (client : list (str * str)) : headers :=
   remove_hop_by_hop (to_reverse_proxy scrub cfg m client).
 
+(* Routes of OAuthProxy.Handler() (oauthproxy.go:148-170) that can end in the reverse proxy:
+   mux.PathPrefix("/") -> Proxy, and "/favicon.ico" -> Favicon (oauthproxy.go:223-230) =
+   Authenticate (404 unless it returns nil) THEN Proxy, which scrubs, consults the whitelist and
+   authenticates again (cf. coq/theories/ProxyCore.v [handle], EFavicon). The other routes
+   (/robots.txt, /oauth2/v1/certs, /oauth2/sign_out, /oauth2/callback, /oauth2/auth, and /ping in
+   front of the host router) never call p.handler. *)
+Inductive route :=
+| RProxy
+| RFavicon (first : session).       (* the session Favicon's own Authenticate asserted *)
+
+(* what the route did to the header map before Proxy starts *)
+Definition route_pre (cfg : config) (r : route) (h : headers) : headers :=
+  match r with
+  | RProxy => h
+  | RFavicon s1 => authenticate_headers cfg s1 h
+  end.
+
+Definition to_reverse_proxy_r (scrub : bool) (cfg : config) (r : route) (m : mode) (client : list (str * str)) : headers :=
+  delete_cookie (cookie_name cfg) (proxy_headers scrub cfg m (route_pre cfg r (mk_headers client))).
+
+Definition upstream_r (scrub : bool) (cfg : config) (r : route) (m : mode) (client : list (str * str)) : headers :=
+  remove_hop_by_hop (to_reverse_proxy_r scrub cfg r m client).
+
 (* the code that exists today has no scrubbing step. (Used by the examples only: the correspondence
    takes the flag from a probe of the tree under test, Corr_C03.case.) *)
 Definition scrub_today : bool := false.
